@@ -74,13 +74,21 @@ pub fn run(args: &Args, r: &mut Report) {
             case.restart_gap_ns = *rng.pick(&[60i128, 3_600, 7_200, 86_400, 200_000, -3_600, -100_000]) * 1_000_000_000;
             case.shape.push("downtime".into());
         }
+        // a store one of whose commits fails: the interval is still handed to the policy and announced exactly as
+        // the responses dictate (only what the store holds is not judged then)
+        let commit_fault = case.fault.fail_keys.is_empty() && case.crash_at.is_none() && rng.chance(1, 8);
+        if commit_fault {
+            case.fault.fail_commit_nth = vec![rng.below(10), rng.below(20)];
+            case.shape.push("commit-fault".into());
+        }
         let next = case.setup.clone();
-        let run = run_case_restart(&case, &[next], &mut rng, 0);
+        let mut run = run_case_restart(&case, &[next], &mut rng, 0);
+        run.flow.skip_all_commit_judgement = commit_fault;
         r.eval(case.shape_key(), case.nontrivial);
         r.interleavings.insert(run.sig);
         let mut m = Mon::default();
         mon_state(&run.flow, &case.setup, Proj::Poll, &mut m);
-        {
+        if !commit_fault {
             let g = lock(&run.w);
             mon_c07_order(&g.log, &run.flow, &mut m);
         }
